@@ -2,7 +2,7 @@
 import copy
 import pickle
 
-from sim.chart import Cfg, swarm, gen_spec, build_api
+from sim.chart import Cfg, swarm, gen_spec, build_api, cond_code
 from sim.engine import Result, Abandon, fp
 from sim.probes import Probe, SimClock
 from sim.checks import common
@@ -72,10 +72,13 @@ class Player:
         return (sig(ms), it.configuration, it.context.get('v'), exc, P.log[mark:], it.time, it.final)
 
 
-def fresh(sp, cond_truth):
+def fresh(sp, cond_truth, echoes=()):
     P = Probe()
     P.cond_truth = dict(cond_truth)
-    it = Interpreter(build_api(sp), clock=SimClock(), initial_context={'P': P}, ignore_contract=False)
+    sc = build_api(sp)
+    for name, attr, text in echoes:
+        setattr(sc.state_for(name), attr, text)
+    it = Interpreter(sc, clock=SimClock(), initial_context={'P': P}, ignore_contract=False)
     return Player(it)
 
 
@@ -96,8 +99,16 @@ def run(ch, tier):
     fs = ch.s('faults')
     names = (sorted({t.event for t in sp.trans if t.event}) or ['ea']) + ['zz']
     cond_truth = {j: False for j in range(sp.nconds) if fs.choice(40) == 1}
+    # the very same source text used once as a statement (entry/exit code) and once as a condition
+    # (a state precondition): evaluators cache compiled code by text, separately per mode
+    pres = [cond_code(j, 'pre', False, True) for st_ in sp.states.values() for j in st_.pre]
+    echoes = []
+    if pres:
+        for name in sp.states:
+            if fs.choice(6) == 1:
+                echoes.append((name, fs.pick(['on_entry', 'on_exit']), fs.pick(pres)))
     # ---------------- control run; the script is drawn while it executes
-    control = fresh(sp, cond_truth)
+    control = fresh(sp, cond_truth, echoes)
     script, outs = [], []
     n = ops.int(4, 25 if tier == 'quick' else 40)
     uid = 0
@@ -130,7 +141,7 @@ def run(ch, tier):
     cfp = fp((sp.fingerprint(), [repr(o) for o in script]))
     for b in bounds:
         for kind in ('pickle', 'deepcopy'):
-            orig = fresh(sp, cond_truth)
+            orig = fresh(sp, cond_truth, echoes)
             for i in range(b):
                 orig.play(script[i])
             try:
@@ -168,6 +179,8 @@ def run(ch, tier):
                 res.nontrivial.add(fp((cfp, b, kind)))
                 if any(e[0] == 'cond' and e[3] is not None for o in outs[b:] if o for e in o[4]):
                     res.stats['continuation_evaluated_old'] += 1
+                if echoes:
+                    res.stats['runs_with_text_shared_by_statement_and_condition'] += 0 if b != bounds[0] or kind != 'pickle' else 1
                 if res.sample is None:
                     res.sample = {'chart': sp.describe()[:14], 'script': [repr(o)[:70] for o in script][:14], 'boundary': b, 'kind': kind}
     res.sim_time = float(control.it.clock._t)
